@@ -114,8 +114,10 @@ var jC03 = reg(&Judge{
 		Policies: []string{"", "no", "always", "on_failure"}, MaxRestartsMax: 3, BackoffMax: 2,
 		Probes: true, ReadyLines: true, MaxSteps: 8, Codes: []int{0, 1}, ShutdownStep: true,
 		SignalBeh: []string{"", "", "hold", "ignore"}, StartErr: true,
-		BackoffStops: true, HoldOps: []string{sc.OpShutdown}, APIOps: []string{sc.OpStop},
-		Holds: []string{"run.enter", "run.afterTerminatingCheck", "run.afterWait", "run.afterBackoff", "runProcess.beforeWait", "runProcess.afterWait", "run.loop"}},
+		BackoffStops: true, HoldOps: []string{sc.OpShutdown}, APIOps: []string{sc.OpStop, sc.OpStart, sc.OpStart},
+		// disabled processes started by request are outside the start-up plan but not outside the shutdown
+		Disabled: true,
+		Holds:    []string{"run.enter", "run.afterTerminatingCheck", "run.afterWait", "run.afterBackoff", "runProcess.beforeWait", "runProcess.afterWait", "run.loop"}},
 	Oracle: oracle.C03,
 	Classify: func(h *sc.History, x *oracle.Idx) (bool, []string) {
 		var labels []string
@@ -345,7 +347,8 @@ var jC08 = reg(&Judge{
 	Profile: Profile{MinProcs: 1, MaxProcs: 3, EdgeProb: 30, Conds: []string{"process_completed", "process_started", "process_completed_successfully"},
 		Policies: []string{"", "no", "always", "on_failure"}, MaxRestartsMax: 2, BackoffMax: 1,
 		MaxSteps: 16, Codes: []int{0, 1}, SignalBeh: []string{"", "", "", "hold"},
-		APIOps: []string{sc.OpStart, sc.OpStop, sc.OpRestart, sc.OpStart, sc.OpStop, sc.OpRestart, sc.OpStopMany}, UnknownNames: true},
+		APIOps: []string{sc.OpStart, sc.OpStop, sc.OpRestart, sc.OpStart, sc.OpStop, sc.OpRestart, sc.OpStopMany}, UnknownNames: true,
+		ShutdownCfg: true},
 	Oracle: oracle.C08,
 	Classify: func(h *sc.History, x *oracle.Idx) (bool, []string) {
 		var labels []string
